@@ -429,16 +429,57 @@ def seed_objects():
     return out
 
 
-# ---- two histories, one value: nested change by reconstruction versus by assignment in place ---------------------
+# ---- two histories, one value: a change made by reconstruction versus made in place ------------------------------
+def array_events(arr, wide=False):
+    """[(tag, apply(array), resulting item list)] - in-place edits of a vector through its sequence interface."""
+    items = list(arr)
+    ev = []
+    if items:
+        ev.append(('del[0]', lambda a: a.__delitem__(0), items[1:]))
+        ev.append(('pop', lambda a: a.pop(), items[:-1]))
+        if len(items) > 1:
+            ev.append(('reverse', lambda a: a.reverse(), items[::-1]))
+    try:
+        alphabet = array_item_alphabet(arr, wide)
+    except Exception:  # noqa
+        alphabet = []
+    for tag, x in alphabet[:2]:
+        ev.append(('append:%s' % tag, lambda a, x=x: a.append(x), items + [x]))
+        ev.append(('insert0:%s' % tag, lambda a, x=x: a.insert(0, x), [x] + items))
+    return ev
+
+
 def inplace_variants(obj, wide=False, max_items=4):
-    """[(tag, rebuilt_thunk, inplace_thunk)].  The same one-field deviation of a *nested* library object (an
-    attribute value, an item of a vector attribute, an item of obj when obj is a vector) is reached
-    (a) by constructing new objects all the way up (what the neighbourhood exploration does) and
-    (b) by deep-copying obj and assigning the changed field(s) of the nested object in place.
-    Both thunks may raise a not-constructible error.  Cached sizes, memoised encodings and aliasing between a
-    container and its items make the two differ."""
+    """[(tag, rebuilt_thunk, inplace_thunk)].  One value reached by two histories:
+    (a) rebuilt():        new objects constructed all the way up (what the neighbourhood exploration does);
+    (b) inplace(warm):    a deep copy of obj, optionally *used first* (warm(copy) - e.g. composed, fingerprinted,
+                          serialised), then changed in place:
+         - a field of a nested library object (attribute value, item of a vector attribute, item of obj) assigned,
+         - a top-level field of obj assigned,
+         - a vector attribute edited through its sequence interface (append, insert, del, pop, reverse).
+    Both thunks may raise a not-constructible error.  Cached sizes, memoised encodings / fingerprints and aliasing
+    between a container and its items make the two differ."""
     import copy
     from cryptoparser.common.base import ArrayBase
+
+    def fresh(warm):
+        c = copy.deepcopy(obj)
+        if warm is not None:
+            warm(c)
+        return c
+
+    def assign_changed(target, new, nfields):
+        if type(target) is not type(new):
+            raise TypeError('nested object changed its class')
+        for a2, _ in nfields:
+            nv = getattr(new, a2)
+            ov = getattr(target, a2)
+            try:
+                same = repr(canon.dump(nv)) == repr(canon.dump(ov))
+            except Exception:  # noqa
+                same = nv is ov
+            if not same:
+                setattr(target, a2, copy.deepcopy(nv))
 
     holders = []
 
@@ -447,21 +488,30 @@ def inplace_variants(obj, wide=False, max_items=4):
         cls = type(arr)
         for i, it in enumerate(items[:max_items]):
             if is_lib_object(it) and attr.has(type(it)) and not isinstance(it, (enum.Enum, ArrayBase)):
-                holders.append(('%s[%d]' % (prefix, i), (lambda c, i=i: list.__getitem__(get_arr(c)._items, i)
-                                                         if hasattr(get_arr(c), '_items') else get_arr(c)[i]),
-                                it, lambda new, i=i: up_arr(cls(items[:i] + [new] + items[i + 1:]))))
+                holders.append(('%s[%d]' % (prefix, i), lambda c, i=i: list(get_arr(c))[i], it,
+                                lambda new, i=i: up_arr(cls(items[:i] + [new] + items[i + 1:]))))
 
+    out = []
+    fields = None if isinstance(obj, ArrayBase) else (_init_fields(obj) or [])
     if isinstance(obj, ArrayBase):
         add_items('', obj, lambda c: c, lambda new_arr: new_arr)
+        cls0 = type(obj)
+        for tag, apply, new_items in array_events(obj, wide):
+            out.append(('.%s' % tag, lambda new_items=new_items: cls0(new_items),
+                        lambda warm=None, apply=apply: (lambda c: (apply(c), c)[1])(fresh(warm))))
     else:
-        fields = _init_fields(obj)
-        for a, kw in fields or []:
+        for a, kw in fields:
             try:
                 v = getattr(obj, a)
             except AttributeError:
                 continue
             if isinstance(v, ArrayBase):
                 add_items(a, v, lambda c, a=a: getattr(c, a), lambda new_arr, a=a: rebuild(obj, a, new_arr))
+                vcls = type(v)
+                for tag, apply, new_items in array_events(v, wide):
+                    out.append(('%s.%s' % (a, tag),
+                                lambda a=a, vcls=vcls, new_items=new_items: rebuild(obj, a, vcls(new_items)),
+                                lambda warm=None, a=a, apply=apply: (lambda c: (apply(getattr(c, a)), c)[1])(fresh(warm))))
             elif isinstance(v, (list, tuple)) and v and is_lib_object(v[0]):
                 seq = list(v)
                 t = type(v)
@@ -471,7 +521,19 @@ def inplace_variants(obj, wide=False, max_items=4):
                                         lambda new, a=a, i=i, seq=seq, t=t: rebuild(obj, a, t(seq[:i] + [new] + seq[i + 1:]))))
             elif is_lib_object(v) and attr.has(type(v)) and not isinstance(v, enum.Enum):
                 holders.append((a, lambda c, a=a: getattr(c, a), v, lambda new, a=a: rebuild(obj, a, new)))
-    out = []
+        # top-level assignment of one field
+        if fields and attr.has(type(obj)):
+            try:
+                lazy0 = neighbours_lazy(obj, wide, 0)
+            except _not_constructible():
+                lazy0 = []
+            for tag, mk in lazy0:
+                def inplace_top(warm=None, mk=mk):
+                    new = mk()
+                    c = fresh(warm)
+                    assign_changed(c, new, fields)
+                    return c
+                out.append(('=%s' % tag, mk, inplace_top))
     for label, get, nested, up in holders:
         nfields = _init_fields(nested)
         if not nfields:
@@ -484,21 +546,48 @@ def inplace_variants(obj, wide=False, max_items=4):
             def rebuilt(mk=mk, up=up):
                 return up(mk())
 
-            def inplace(mk=mk, get=get, nfields=nfields):
+            def inplace(warm=None, mk=mk, get=get, nfields=nfields):
                 new = mk()
-                c = copy.deepcopy(obj)
-                target = get(c)
-                if type(target) is not type(new):
-                    raise TypeError('nested object changed its class')
-                for a2, _ in nfields:
-                    nv = getattr(new, a2)
-                    ov = getattr(target, a2)
-                    try:
-                        same = repr(canon.dump(nv)) == repr(canon.dump(ov))
-                    except Exception:  # noqa
-                        same = nv is ov
-                    if not same:
-                        setattr(target, a2, copy.deepcopy(nv))
+                c = fresh(warm)
+                assign_changed(get(c), new, nfields)
                 return c
             out.append(('%s.%s' % (label, tag), rebuilt, inplace))
     return out
+
+
+def value_dump(o, _depth=0):
+    """Canonical form of the *value* of an object: the constructor arguments, recursively (what a caller would pass
+    to build an equal object).  Unlike canon.dump it does not show private attributes, in which an implementation
+    is free to cache answers."""
+    from cryptoparser.common.base import ArrayBase
+    if _depth > 12:
+        return ('deep',)
+    if isinstance(o, enum.Enum):
+        return ('enum', type(o).__name__, o.name)
+    if isinstance(o, ArrayBase):
+        return ('array', type(o).__name__) + tuple(value_dump(x, _depth + 1) for x in list(o))
+    if is_lib_object(o) and not domain_opaque(o):
+        fields = _init_fields(o)
+        if fields:
+            out = [type(o).__name__]
+            for a, kw in fields:
+                try:
+                    out.append((kw, value_dump(getattr(o, a), _depth + 1)))
+                except AttributeError:
+                    out.append((kw, ('missing',)))
+            return tuple(out)
+        return canon.dump(o, eq=True, tz=True)
+    if isinstance(o, (list, tuple)):
+        return ('seq',) + tuple(value_dump(x, _depth + 1) for x in o)
+    if isinstance(o, dict):
+        items = [(value_dump(k, _depth + 1), value_dump(v, _depth + 1)) for k, v in o.items()]
+        return (('odict',) + tuple(items)) if type(o).__name__ == 'OrderedDict' else \
+            (('dict',) + tuple(sorted(items, key=repr)))
+    if isinstance(o, (set, frozenset)):
+        return ('set',) + tuple(sorted((value_dump(x, _depth + 1) for x in o), key=repr))
+    return canon.dump(o, eq=True, tz=True)
+
+
+def domain_opaque(o):
+    from mc import domain
+    return domain.is_opaque_leaf(o)
